@@ -263,7 +263,7 @@ theorem sprintf_safe_no_marker (env : Env) (he : S.EnvOk env) (v : Val) (hv : S.
 /-! Premises satisfiable: a `Safe(string)` inside `Unsafe(…)`, and an `Unsafe(Safe(string))` inside `Safe(…)`.
 (The model prints `Unsafe(Safe("a\nb"))` as `‹a›\n‹b›` and `Safe(Unsafe(Safe("a\nb")))` as `a\nb`: `#eval` in the driver.) -/
 def exEnv6 : Env := { render := fun _ _ => some [0x61, 0x0A, 0x62], hook := none }
-def exV6 : Val := .safeW (.leaf 0 .str "string".toUTF8.toList none false false)
+def exV6 : Val := .safeW (.leaf 0 .str ([0x73, 0x74, 0x72, 0x69, 0x6E, 0x67] /- "string" -/ : List UInt8) none false false)
 example : EnvOk exEnv6 ∧ S.EnvOk exEnv6 ∧ ValOk exV6 ∧ S.ValOk (.unsafeW exV6) := by
   refine ⟨?_, ?_, ?_, ?_⟩
   · intro h hh; cases hh
